@@ -6,6 +6,7 @@ func init() {
 		NotDecided:  "numeric score values up to rounding, behaviour of the UAX#29 segmenter / NFKC tables on particular strings.",
 		Assumptions: []string{"roaring.Bitmap contracts", "container/heap keeps the Less-minimum at index 0", "uax29 / x/text behave as documented"},
 	}, func(r *Run) {
+		ruleErrProp(r, "C03.ERRPROP", "bm25_index")
 		k, err := textKindOf(r.W)
 		if err != nil {
 			r.Unres("C03.KIND", "bm25", err.Error())
